@@ -125,6 +125,14 @@ class RobotsTxtChecker(object):
         data = response.body.read(512000)
         url_info = original_url_info
 
+        # The file is UTF-8 (RFC 9309). Given bytes, the parser assumes
+        # ISO-8859-1 and a rule written in raw UTF-8 never matches the
+        # percent-encoded UTF-8 of the URL.
+        try:
+            data = data.decode('utf-8')
+        except UnicodeDecodeError:
+            data = data.decode('latin-1')
+
         try:
             self._robots_txt_pool.load_robots_txt(url_info, data)
         except ValueError:
